@@ -1,0 +1,12 @@
+//go:build verif
+// +build verif
+
+package gobeansdb
+
+import "github.com/douban/gobeansdb/store"
+
+// NewStorageForVerif wraps an already opened HStore the way Main does.
+// Only built with the tag "verif".
+func NewStorageForVerif(h *store.HStore) *Storage {
+	return &Storage{hstore: h}
+}
